@@ -13,7 +13,7 @@ import numpy as np
 import pandas as pd
 from dask.array import Array
 from dask.base import normalize_token
-from dask.core import flatten
+from dask.core import flatten, quote
 from dask.dataframe import methods
 from dask.dataframe._pyarrow import to_pyarrow_string
 from dask.dataframe.core import (
@@ -475,7 +475,10 @@ class Blockwise(Expr):
     @functools.cached_property
     def _meta(self):
         args = [op._meta if isinstance(op, Expr) else op for op in self._args]
-        return self.operation(*args, **self._kwargs)
+        kwargs = {
+            k: v._meta if isinstance(v, Expr) else v for k, v in self._kwargs.items()
+        }
+        return self.operation(*args, **kwargs)
 
     @functools.cached_property
     def _kwargs(self) -> dict:
@@ -558,9 +561,22 @@ class Blockwise(Expr):
         """
         args = [self._blockwise_arg(op, index) for op in self._args]
         if self._kwargs:
-            return apply, self.operation, args, self._kwargs
+            return apply, self.operation, args, self._blockwise_kwargs(index)
         else:
             return (self.operation,) + tuple(args)
+
+    def _blockwise_kwargs(self, index: int, kwargs=None):
+        """Keyword arguments of the task; operands that are expressions are
+        referred to by the key of their partition like positional arguments"""
+        kwargs = self._kwargs if kwargs is None else kwargs
+        if not any(isinstance(v, Expr) for v in kwargs.values()):
+            return kwargs
+        # dask substitutes keys in lists but not in dicts
+        items = [
+            [k, self._blockwise_arg(v, index) if isinstance(v, Expr) else quote(v)]
+            for k, v in kwargs.items()
+        ]
+        return (dict, items)
 
     def _simplify_up(self, parent, dependents):
         if self._projection_passthrough and isinstance(parent, Projection):
